@@ -17,7 +17,7 @@ func init() { Registry["C06"] = runC06 }
 type c06case struct {
 	Conf    sessConf `json:"conf"`
 	Site    string   `json:"site"`
-	Mode    string   `json:"mode"` // error temporary panic badpartition
+	Mode    string   `json:"mode"` // error kinderror temporary panic badpartition
 	Persist bool     `json:"persistent"`
 	Pos     string   `json:"position"` // first vector-1 vector vector+1 last
 	// Shape: what consumes the output of the task in which the function fails. "" - the result
@@ -180,7 +180,7 @@ func runC06case(t *vf.T, pool *sessionPool, c c06case) {
 			return
 		}
 		// the property requires the message for reader and writer errors and for every panic
-		needMsg := c.Mode == "panic" || (c.Mode == "error" && (c.Site == "readerfunc" || c.Site == "writerfunc" || c.Site == "scanreader"))
+		needMsg := c.Mode == "panic" || ((c.Mode == "error" || c.Mode == "kinderror") && (c.Site == "readerfunc" || c.Site == "writerfunc" || c.Site == "scanreader"))
 		if needMsg && !strings.Contains(runErr.Error(), msg) {
 			t.Violate(sig+" message-lost", fmt.Sprintf("Run failed but the error does not carry the user's message %q: %.300s", msg, runErr.Error()))
 			return
@@ -243,7 +243,9 @@ func runC06(r *vf.Runner) {
 	sites := []string{"readerfunc", "scanreader", "writerfunc", "map", "filter", "flatmap", "fold", "reduce", "repartition", "scan"}
 	modesOf := func(site string) []string {
 		switch site {
-		case "readerfunc", "writerfunc", "scan":
+		case "readerfunc", "writerfunc":
+			return []string{"error", "kinderror", "temporary", "panic"}
+		case "scan":
 			return []string{"error", "temporary", "panic"}
 		case "scanreader":
 			return []string{"error", "temporary"}
